@@ -40,36 +40,97 @@ def codec_stage(run, tmp, hx, known, name, fam, module="TraceCodec", selftest=Tr
         binding_selftest(run, tmp, shards, module, name, set(r[0] for r in v["rejs"]))
 
 
+def corrupt(e, i):
+    """Corrupt one recorded field of a good event; returns (event, expected reason-code prefix) or None."""
+    ev = e.get("ev")
+    J = V.json
+    e = J.loads(J.dumps(e))
+    if ev == "rt":
+        if e.get("dskip") != 0 or e.get("derr") != 0 or e.get("dpanic") != 0:
+            return None
+        if i % 2 == 0:
+            e["out"] = e["out"] + [78]
+            return e, "C02.wellformed"
+        e["r"] = {"n": [], "r": {"k": "int", "g": "int8", "b": [0, 0, 0, 0, 0, 0, 0, 77]}}
+        return e, "C01."
+    if ev == "stream":
+        if not e["used"] or any(e["rerr"]) or any(e["werr"]):
+            return None
+        if i % 2 == 0:
+            e["used"][-1] += 1
+            return e, "C06.offset"
+        e["ends"][0] += 1
+        return e, "C06.framing"
+    if ev == "alt":
+        if e["err"] or e["panic"]:
+            return None
+        e["r"] = {"n": [], "r": {"k": "int", "g": "int8", "b": [0, 0, 0, 0, 0, 0, 0, 77]}}
+        return e, "C0"
+    if ev == "hist":
+        e["probes"][0]["eu"] = e["probes"][0]["eu"] + [1]
+        return e, "C11.encodeBytes"
+    if ev == "fault":
+        if e["clean"] == 1 or e["ret"] == 0:
+            return None
+        e["ret"] = 0
+        return e, "C15.swallowed"
+    if ev == "hostile":
+        e["panic"] = 1
+        return e, "C14.panic"
+    if ev == "poolseq":
+        gets = [k for k, o in enumerate(e["ops"]) if o["op"] == "get"]
+        if len(gets) < 2:
+            return None
+        e["ops"][gets[1]]["obj"] = e["ops"][gets[0]]["obj"] if e["ops"][gets[1]]["obj"] != e["ops"][gets[0]]["obj"] else 99
+        return e, "C17."
+    if ev == "conc":
+        e["outs"][0] = e["outs"][0] + [0]
+        return e, "C12.octets"
+    if ev == "concload":
+        e["calls"][0][1] = e["calls"][0][1] + [0]
+        return e, "C12.octets"
+    if ev == "extract":
+        if e.get("crash") or not e["tm"]:
+            return None
+        e["tm"] = []
+        return e, "C16.closed"
+    return None
+
+
 def binding_selftest(run, tmp, shards, module, name, already):
     """Demonstrate the binding: corrupt recorded fields of good events and
-    require TLC to reject exactly those events."""
+    require TLC to reject exactly those events (controls stay accepted)."""
     evs = []
     for path in shards:
         for line in open(path):
+            if len(line) > 60000:
+                continue
             e = V.json.loads(line)
-            if e.get("ev") == "rt" and e["id"] not in already and e.get("dskip") == 0 and e.get("derr") == 0 and e.get("dpanic") == 0 and len(line) < 20000:
-                evs.append(e)
-            if len(evs) >= 12:
+            if e.get("id") in already:
+                continue
+            evs.append(e)
+            if len(evs) >= 18:
                 break
-        if len(evs) >= 12:
+        if len(evs) >= 18:
             break
-    if not evs:
-        return
-    want = {}
+    want, outev = {}, []
     for i, e in enumerate(evs):
-        if i % 3 == 0:      # one octet too many on the wire
-            e["out"] = e["out"] + [78]
-            want[e["id"]] = "C02.wellformed"
-        elif i % 3 == 1:    # the decoder "returned" something else
-            e["r"] = {"n": [], "r": {"k": "int", "g": "int8", "b": [0, 0, 0, 0, 0, 0, 0, 77]}}
-            want[e["id"]] = "C01."
-        else:               # unchanged control event
+        if i % 3 == 2:
             want[e["id"]] = None
+            outev.append(e)
+            continue
+        c = corrupt(e, i)
+        if c is None:
+            continue
+        want[e["id"]] = c[1]
+        outev.append(c[0])
+    if not any(want.values()):
+        return
     d = V.os.path.join(tmp, "selftest_" + name)
     V.os.makedirs(d, exist_ok=True)
     tp = V.os.path.join(d, "trace.00.ndjson")
     with open(tp, "w") as f:
-        for e in evs:
+        for e in outev:
             f.write(V.json.dumps(e) + "\n")
     v = V.validate_shards(tmp, module, [tp], "selftest_" + name)
     got = {}
@@ -81,7 +142,8 @@ def binding_selftest(run, tmp, shards, module, name, already):
             raise V.Infra("binding self-test: control event %d rejected: %s" % (eid, codes))
         if pref is not None and not any(c.startswith(pref) for c in codes):
             raise V.Infra("binding self-test: corrupted event %d (%s) not rejected: %s" % (eid, pref, codes))
-    run.extra.setdefault("binding_selftest", []).append(dict(stage=name, corrupted=sum(1 for x in want.values() if x), rejected_as_expected=sum(1 for x in want.values() if x), controls_accepted=sum(1 for x in want.values() if x is None)))
+    n = sum(1 for x in want.values() if x)
+    run.extra.setdefault("binding_selftest", []).append(dict(stage=name, corrupted=n, rejected_as_expected=n, controls_accepted=sum(1 for x in want.values() if x is None)))
 
 
 def scalar_mc(run, tmp):
@@ -157,6 +219,7 @@ def alt_stage(run, tmp, hx, known, name, fam, mode, cfgtext, simulate=None, mc_n
     v["rejs"] = mine
     run.add_validation(name, v, summary)
     V.judge(run, known, mine, shards, dict(hx=hxargs, seed=run.seed, tier=run.tier, module="TraceCodec", note="vectors must be regenerated by the generator configuration " + name))
+    binding_selftest(run, tmp, shards, "TraceCodec", name, set(x[0] for x in v["rejs"]))
 
 
 def hcodec_mc(run, tmp, hx, fam="small"):
@@ -228,6 +291,7 @@ def plan_c14(run, tmp):
         raise V.Infra("mutant classification changed between TLC and the harness: %s" % gen_bad[:5])
     run.add_validation("hostile", v, summary)
     V.judge(run, known, v["rejs"], shards, dict(hx=hxargs, seed=run.seed, tier=run.tier, module="TraceCodec"))
+    binding_selftest(run, tmp, shards, "TraceCodec", "hostile", set(x[0] for x in v["rejs"]))
     run.assumptions += ["no-panic / bounded time and memory are run-time monitors (isolated worker, RLIMIT_AS 6 GiB, 10 s watchdog, TotalAlloc delta); the specification contributes the structure-aware mutants and their classification",
                         "flat bounds (256 MiB, 10 s for inputs <= 64 KiB) cannot be exceeded by an implementation linear in its input"]
     return V.finish(run, "exploration", "structure-aware mutants generated and classified by TLC (MutGen over the reference decoder), prefixes and random strings; every decode entry point in an isolated worker; verdict by monitors recorded in the trace and evaluated by TLC")
@@ -263,6 +327,7 @@ def plan_c11(run, tmp):
     summary["vectors_from_tlc"] = r["vectors"] + r2["vectors"]
     run.add_validation("hist", v, summary)
     V.judge(run, known, v["rejs"], shards, dict(hx=hxargs, seed=run.seed, tier=run.tier, module="TraceCodec"))
+    binding_selftest(run, tmp, shards, "TraceCodec", "hist", set(x[0] for x in v["rejs"]))
     run.assumptions += ["probe values have no multi-entry maps, so octet equality between the used and the fresh instance is required",
                         "error-ness is compared, not error text"]
     return V.finish(run, "model_checking", "HApi model-checked (ProbeEqualsFresh; three negative configurations); every history of the model up to the bound and simulated histories up to length 30 replayed on real Encoder / Decoder / Serializer instances, probes on the used and on a fresh instance compared by TLC; snapshots of values, input octets and maps before/after compared by TLC")
@@ -288,6 +353,7 @@ def plan_c16(run, tmp):
     summary = V.json.load(open(V.os.path.join(out, "summary.json")))
     run.add_validation("extract", v, summary)
     V.judge(run, known, v["rejs"], shards, dict(hx=hxargs, seed=run.seed, tier=run.tier, module="TraceCodec"))
+    binding_selftest(run, tmp, shards, "TraceCodec", "extract", set(x[0] for x in v["rejs"]))
     rshards = V.shard_files(out, "rt")
     v2 = V.validate_shards(tmp, "TraceCodec", rshards, "extract_rt")
     mine = [x for x in v2["rejs"] if V.re.search(r"^(C01|C16|C02\.(wellformed|class|fields|listType))", x[1])]
@@ -322,6 +388,7 @@ def plan_c12(run, tmp):
     v = V.validate_shards(tmp, "TraceCodec", shards, "sched")
     run.add_validation("sched", v, V.json.load(open(V.os.path.join(out, "summary.json"))))
     V.judge(run, known, v["rejs"], shards, dict(hx=hxargs, seed=run.seed, tier=run.tier, module="TraceCodec"))
+    binding_selftest(run, tmp, shards, "TraceCodec", "sched", set(x[0] for x in v["rejs"]))
     # (b) code -> spec under load, race-detector build
     outl = V.os.path.join(tmp, "tr_load")
     V.os.makedirs(outl, exist_ok=True)
@@ -385,6 +452,7 @@ def plan_pool(run, tmp):
     summary = V.json.load(open(V.os.path.join(out, "summary.json")))
     summary["vectors_from_tlc"] = nvec
     run.add_validation("poolseq", v, summary)
+    binding_selftest(run, tmp, shards, "TracePoolSeq", "poolseq", set(x[0] for x in v["rejs"]))
     V.judge(run, known, v["rejs"], shards, dict(hx=["poolseq", "-vectors", "(regenerate with GenPool)"], seed=run.seed, tier=run.tier, module="TracePoolSeq"))
     # objects handed out are usable: a round trip with each (validated by TraceCodec)
     ushards = V.shard_files(out, "use")
@@ -419,7 +487,9 @@ def conc_validate(run, tmp, shards):
         if V.os.path.lexists(tp):
             V.os.remove(tp)
         V.os.symlink(path, tp)
-        r = V.run_tlc(d, "TracePool", workers=1, timeout=1500, heap="6g")
+        r = V.run_tlc(d, "TracePool", workers=1, timeout=240, heap="6g")
+        if r["rc"] == 124:   # search for a linearization did not finish: no verdict on this history
+            return dict(rej=None, undecided=True, hdr=hdr, generated=0, distinct=0, events=n - 1, path=path)
         hw = None
         for line in r["out"].splitlines():
             m = V.re.match(r'^<<"HIGHWATER", (\d+), (\d+)>>$', line)
@@ -442,6 +512,7 @@ def conc_validate(run, tmp, shards):
             rp = V.os.path.join(V.VERIF, "replays", "C17-history-%d-seed%d.ndjson" % (r["hdr"]["id"], run.seed))
             shutil.copy(r["path"], rp)
             run.violations.append((r["rej"][0], r["rej"][1], rp, 1))
+    run.extra["concurrent_histories_undecided_within_time_limit"] = sum(1 for r in rs if r.get("undecided"))
     return dict(rejs=[], events=sum(r["events"] for r in rs), generated=sum(r["generated"] for r in rs), distinct=sum(r["distinct"] for r in rs))
 
 
@@ -453,7 +524,7 @@ PLANS = {
     "C09": plan_codec("c09", None, "string/binary round trips validated by TLC: payload, character counts, chunk boundaries"),
     "C04": plan_codec("c04", None, "pointer graphs (exhaustive small, random large) encoded and decoded; TLC checks ref ordinals on the wire (Denotes binds node->ordinal) and identity in the decoded graph (canonical numbering equality)"),
     "C06": plan_codec("c06", None, "multi-value streams through one encoder/decoder and one serializer over a counting reader; TLC threads the stream state (class, type and ref tables) through the whole history: framing offsets, denotation with cross-value refs, order, no carrier"),
-    "C15": plan_codec("c15", fault_mc, "fault enumeration: for each value and writer-taking entry point every Write index k x 4 fault kinds is executed against the real encoder; each run's writer log is replayed by TLC through HFault (FaultSurfaces)", module="TraceFault", level="fault_enumeration", selftest=False),
+    "C15": plan_codec("c15", fault_mc, "fault enumeration: for each value and writer-taking entry point every Write index k x 4 fault kinds is executed against the real encoder; each run's writer log is replayed by TLC through HFault (FaultSurfaces)", module="TraceFault", level="fault_enumeration"),
     "C17": plan_pool,
     "C03": plan_c03,
     "C12": plan_c12,
